@@ -156,6 +156,12 @@ def run(ctx):
     # ---- R4 write set + write back (shared with C08)
     _inplace_signers(ctx.sub("R4"), "C08-R3")
 
+    # ---- "a client verifies each entry through a pkg_mgr delegation": the delegation check accepts
+    # properly signed content of any shape and nothing else (C05's rule set, re-evaluated here)
+    from . import c05
+
+    c05.run(ctx.sub("DEP-C05"))
+
 
 def _priv_of(pk):
     """the private-key term inside HEX(priv.public_key().public_bytes(...))"""
